@@ -160,8 +160,11 @@ def judge_s3(case, root):
                     exp_out += f'{k}: {type(mo).__name__}' + (' (completed)' if mo.completed else '') + '\n'
                     if cmd == 'inspect':
                         buf = io.StringIO()
-                        with contextlib.redirect_stdout(buf):
-                            mo.inspect()
+                        try:
+                            with contextlib.redirect_stdout(buf):
+                                mo.inspect()
+                        except Exception as e:
+                            fail('library-inspect-raised', f'{type(mo).__name__}.inspect() raised {type(e).__name__}')
                         exp_out += buf.getvalue() + '\n'
                 argv = [cmd, '-b', 'bkt', '-p', 'pre/'] + (['-s', '.mos.xml'] if opts.get('s') else [])
                 out, err, status, exc = run_cli(argv)
